@@ -88,6 +88,12 @@ k1!(k1_i128_4, i128, ref_int_u128, 4, 6);
 k1!(k1_usize_4, usize, ref_int_u128, 4, 6);
 k1!(k1_isize_4, isize, ref_int_u128, 4, 6);
 
+k1!(k1_i8_3, i8, ref_int_u64, 3, 5);
+k1!(k1_i16_3, i16, ref_int_u64, 3, 5);
+k1!(k1_i32_3, i32, ref_int_u64, 3, 5);
+k1!(k1_i64_3, i64, ref_int_u128, 3, 5);
+k1!(k1_i128_3, i128, ref_int_u128, 3, 5);
+
 k1!(k1_u8_6, u8, ref_int_u64, 6, 8);
 k1!(k1_i8_6, i8, ref_int_u64, 6, 8);
 k1!(k1_u16_6, u16, ref_int_u64, 6, 8);
@@ -283,6 +289,7 @@ mod radix {
     }
     // power-of-two radices (feature P)
     k4!(k4_u8_r2_9, u8, ref_int_u64, 9, 11, 2);
+    k4!(k4_u8_r2_6, u8, ref_int_u64, 6, 8, 2);
     k4!(k4_i8_r2_9, i8, ref_int_u64, 9, 11, 2);
     k4!(k4_u16_r16_5, u16, ref_int_u64, 5, 7, 16);
     k4!(k4_i16_r16_5, i16, ref_int_u64, 5, 7, 16);
